@@ -239,7 +239,7 @@ C15Scn(p) ==
 (* C18: two filters, shared or separate stores, renamed cookies, own timeouts *)
 C18Space == [stores : {"sharedMemory", "sharedRedis", "separate", "redisDbs"}, samePrefix : BOOLEAN, how : {"renamed", "asIs"},
              absA : {0, 300}, absB : {0, 100}, firstLogin : {"f1", "f2"}, override : {FALSE}]
-            \cup [stores : {"sharedMemory", "redisDbs"}, samePrefix : {FALSE}, how : {"renamed"}, absA : {0}, absB : {0, 100},
+            \cup [stores : {"sharedMemory", "redisDbs"}, samePrefix : {FALSE}, how : {"renamed"}, absA : {0, 300}, absB : {0, 100},
                   firstLogin : {"f1", "f2"}, override : {TRUE}]
 
 C18Scn(p) ==
@@ -261,6 +261,7 @@ C18Scn(p) ==
          <<Browse("b1", me, 1, long), crossReq, App("b1", me, "jar", 1, long),
            Tick(150), App("b1", me, "jar", 1, long), Browse("b2", other, 2, long), Tick(150), App("b2", other, "jar", 2, long),
            Tick(100), App("b1", me, "jar", 1, long), App("b2", other, "jar", 2, long),
+           Tick(250), App("b2", other, "jar", 2, long),      \* (a filter without a limit of its own keeps its session: no other filter's limit applies)
            Logout("b1", me, "jar"), Logout("b2", other, "jar")>>,
          <<"isolation">>)
 
